@@ -121,6 +121,41 @@ def inproc(ctx):
         ctx.case(key=("sel", repr(cfg), tuple(evs)), tags=["sel-spec", "shape:" + cfg["shape"], "filter-spelling:" + facts] +
                  ["sel:-F" if any(t["filter"] for t in cfg["trig"].values()) else "sel:no-F",
                   "sel:-N" if any(not t["filter"] for t in cfg["trig"].values()) else "sel:no-N"], size=len(evs))
+    # stage-2 specification cases: -F / -N / -D / -t plus depth= and time= trigger actions (well-formed values;
+    # on the -pg shape a time= trigger only together with a filter or a depth= trigger: outside that the known leak)
+    sel2cases = []
+    for i in range(ctx.n(50, 600)):
+        cfg = {"shape": rng.choice(["pg", "cyg"]), "trig": {}, "pattern": rng.choice(["simple", "regex", "glob"])}
+        facts = rng.choice(["none", "none", "all", "mixed"])
+        use_caller = rng.random() < 0.35
+        for k in rng.sample(range(6), rng.randrange(1, 5)):
+            tr = {}
+            if rng.random() < 0.5:
+                tr["filter"] = rng.random() < 0.6
+                tr["as_action"] = facts == "all" or (facts == "mixed" and rng.random() < 0.5)
+            if rng.random() < 0.45:
+                tr["depth"] = rng.choice([1, 1, 2, 3])
+            if rng.random() < 0.45 and (cfg["shape"] == "cyg" or "filter" in tr or "depth" in tr):
+                tr["time"] = rng.choice([0, 1, 5, 10, 100])
+            if rng.random() < 0.25 and (cfg["shape"] == "cyg" or "filter" in tr or "depth" in tr):
+                tr["size"] = rng.choice([20, 40, 60, 100])
+            if rng.random() < 0.2:
+                tr["trace"] = True
+            if use_caller and rng.random() < 0.4:
+                tr["caller"] = True
+            if tr:
+                cfg["trig"][k] = tr
+        if rng.random() < 0.6:
+            cfg["depth"] = rng.choice([1, 2, 3, 4])
+        if rng.random() < 0.5:
+            cfg["threshold"] = rng.choice([1, 5, 10])
+        fo = F.assign_times(rng, F.gen_shape(rng, 6, rng.choice([4, 8, 16]), 5), durs=DURS)
+        evs = F.flatten(fo)
+        res = mcgen.run_case(h, cfg, evs)
+        sel2cases.append({"cfg": cfg, "forest": fo, "evs": evs, "res": res})
+        cases.append({"cfg": cfg, "forest": fo, "evs": evs, "res": res, "complete": True})
+        ctx.case(key=("sel2", repr(cfg), tuple(evs)), tags=["sel2-spec", "shape:" + cfg["shape"]] +
+                 sorted({"sel2:" + k for t in cfg["trig"].values() for k in t if k != "as_action"}), size=len(evs))
     # ---- evaluate in Coq
     terms = [mcgen.case_term(c["cfg"], c["evs"], c["res"]) for c in cases]
     defs = "Definition cases : list case4 := [\n%s\n].\n" % ";\n".join(terms)
@@ -146,8 +181,24 @@ def inproc(ctx):
         c["cfg"].get("depth") if c["cfg"].get("depth") is not None else 1024, c["cfg"].get("threshold") or 0,
         F.coq_forest(c["forest"]), mcgen.coq_recs(c["res"]["recs"])) for c in selcases]
     defs += "Definition selchk : list bool := [\n%s\n].\n" % ";\n".join(sel_terms)
+
+    def opt(v, f="%d"):
+        return "None" if v is None else "Some " + (f % v)
+    sizes_term = "[%s]" % "; ".join("(%d, %d)" % (256 * i, z) for i, z in enumerate(mch.SIZES))
+    sel2_terms = ["ok_sel2 [%s] %s %s %s %d %d %s %s" % (
+        "; ".join("(%d, {| sf := %s; sd := %s; stm := %s; ssz := %s; str := %s; sc := %s |})" % (
+            256 * k, "None" if t.get("filter") is None else "Some " + coq.coq_bool(t["filter"]),
+            opt(t.get("depth")), opt(t.get("time")), opt(t.get("size")), coq.coq_bool(t.get("trace")),
+            coq.coq_bool(t.get("caller")))
+            for k, t in sorted(c["cfg"]["trig"].items())), sizes_term,
+        coq.coq_bool(any(t.get("filter") is True for t in c["cfg"]["trig"].values())),
+        coq.coq_bool(any(t.get("caller") for t in c["cfg"]["trig"].values())),
+        c["cfg"].get("depth") if c["cfg"].get("depth") is not None else 1024, c["cfg"].get("threshold") or 0,
+        F.coq_forest(c["forest"]), mcgen.coq_recs(c["res"]["recs"])) for c in sel2cases]
+    defs += "Definition sel2chk : list bool := [\n%s\n].\n" % ";\n".join(sel2_terms)
     res = coq.run_cases(ctx, "c05_cases", mcgen.PRE, defs, [
         ("sel", "bad_indices (fun b : bool => b) selchk 0"),
+        ("sel2", "bad_indices (fun b : bool => b) sel2chk 0"),
         ("mismatch", "bad_indices agree4 cases 0"),
         ("leaky", "bad_indices (fun c : case4 => let '(a, b, _, _) := c in negb (leaky a b)) cases 0"),
         ("restore", "bad_indices (fun c : case4 => let '(a, b, o, _) := c in leaky a b || ok_restore b o) cases 0"),
@@ -186,12 +237,18 @@ def inproc(ctx):
         ctx.violation("C05: recorded trace differs from the documented -F/-N/-D semantics (specification sel)",
                       {"mode": "inproc", "cfg": c["cfg"], "events": c["evs"], "impl_records": c["res"]["recs"],
                        "env": mch.cfg_env(c["cfg"])}, True)
+    for j in R["sel2"][:2]:
+        c = sel2cases[j]
+        ctx.violation("C05: recorded trace differs from the documented semantics of -F/-N/-C/-D/-t with depth=/time=/trace "
+                      "triggers (specification sel2)",
+                      {"mode": "inproc", "cfg": c["cfg"], "events": c["evs"], "impl_records": c["res"]["recs"],
+                       "env": mch.cfg_env(c["cfg"])}, True)
     for j in R["method"][:2]:
         p = pairs[j]
         ctx.violation("C05: recorded trace depends on the instrumentation method",
                       {"mode": "pair", "cfg": p["cfg"], "events": p["evs"], "pg_records": p["pg"]["recs"],
                        "cyg_records": p["cyg"]["recs"]}, True)
-    if R["mismatch"] and not (R["restore"] or R["nested"] or R["plain"] or R["method"] or R["sel"] or R["emb"]):
+    if R["mismatch"] and not (R["restore"] or R["nested"] or R["plain"] or R["method"] or R["sel"] or R["sel2"] or R["emb"]):
         c = cases[R["mismatch"][0]]
         ctx.violation("model and libmcount disagree on %d case(s); the C05 checkers accept every explored "
                       "implementation output" % len(R["mismatch"]),
